@@ -14,7 +14,8 @@ from . import build
 from .terms import Term, canon, from_json, to_json
 
 BLANK = {"e": "", "F": [], "cleanup": True, "fixed": [], "f": "", "kwargs": [], "results": [], "loaded": [], "cls": "", "msg": "", "args": [], "attributed": False, "disk": [], "linputs": [], "ldefaults": [], "shapes": [],
-         "storage_in": [], "storage_out": [], "mapspecs_in": [], "mapspecs_out": [], "proc": "", "fixedraw": [], "new_inputs": [], "cache": False, "func": {}}
+         "storage_in": [], "storage_out": [], "mapspecs_in": [], "mapspecs_out": [], "proc": "", "fixedraw": [], "new_inputs": [], "cache": False, "func": {},
+         "repro": ["", []], "repro_loaded": ["", []]}
 
 
 def ev(**kw) -> dict:
